@@ -168,6 +168,16 @@ def render(case):
         elif not p.get("toc"):
             faults.append({"file": fid, "line": 0, "classes": ["OrphanedPage"], "kind": "orphan", "in": "page", "n": p["name"]})
         body = render_blocks(p["blocks"], fid, faults, len(head), "page")
+        sel = p.get("selector")
+        if sel in ("tabs", "both"):
+            if sel == "both":
+                faults.append({"file": fid, "line": len(head) + len(body), "classes": ["UnexpectedDirectiveOrder"],
+                               "kind": "selector_order", "in": "page", "n": 0})
+            body += [".. tabs-selector:: drivers", "", ".. tabs-drivers::", "", "   tabs:", "     - id: python", "       content: |", "         py text",
+                     "     - id: shell", "       content: |", "         sh text", ""]
+        if sel in ("method", "both"):
+            body += [".. method-selector::", "", "   .. method-option::", "      :id: driver", "", "      .. method-description::", "", "         Desc.", "",
+                     "      Body.", "", "   .. method-option::", "      :id: cli", "", "      .. method-description::", "", "         Desc 2.", "", "      Body 2.", ""]
         files["source/" + fid] = "\n".join(head + body) + "\n"
         for b in p["blocks"]:
             if b["t"] == "bad_image_file":
@@ -620,6 +630,11 @@ class C14(core.PropertyCheck):
         names = ["alpha", "guide/beta", "gamma", "ref/deep/delta"]
         for i in range(npages):
             pages.append({"name": names[i], "toc": rng.random() < 0.75, "blocks": blocks(PAGE_FAULTS, 0, 4)})
+        # page-level constructs whose diagnostics a handler holds back until the end of the page (a tabs-selector is only
+        # misplaced when the same page has a method-selector): what one page queued must not surface on another
+        for p in pages:
+            if rng.random() < 0.3:
+                p["selector"] = rng.choice(["tabs", "tabs", "method", "both"])
         includes = []
         for i in range(rng.choice([0, 1, 1, 2])):
             inc = {"name": f"shared-{i}", "blocks": blocks(PAGE_FAULTS, 1, 3, 0.8)}
